@@ -375,8 +375,7 @@ class ForkBackend(object):
         return out
 
     def close_server(self, ceiling):
-        self._cmd("close")
-        return "-"
+        return self._cmd("close")
 
     def teardown(self):
         try:
@@ -451,8 +450,15 @@ def forking_child_main(argv):
     except OSError as ex:
         print(json.dumps(dict(error=str(ex))), flush=True)
         return 2
-    state = dict(returned=False)
-    signal.signal(signal.SIGUSR1, lambda *a: srv.close())
+    state = dict(returned=False, close=None)
+
+    def on_usr1(*a):
+        try:
+            srv.close()
+            state["close"] = "-"
+        except BaseException as ex:  # noqa   (reported to the harness as the observation of the close)
+            state["close"] = "exc %r" % (ex,)
+    signal.signal(signal.SIGUSR1, on_usr1)
     wlock = threading.Lock()
 
     def say(obj):
@@ -472,16 +478,21 @@ def forking_child_main(argv):
                 say(dict(L=int(listening), c=len(srv.clients), fds=nfds() - base, ch=_children_of(os.getpid()),
                          returned=state["returned"]))
             elif cmd == "close":
+                state["close"] = None
                 os.kill(os.getpid(), signal.SIGUSR1)
                 # the handler runs in the main thread; wait until close() has run
-                wait_for(lambda: srv._closed and not srv.active)
-                say("closed")
+                if wait_for(lambda: state["close"] is not None) is None:
+                    say("hang")
+                else:
+                    say(state["close"])
             elif cmd == "exit":
                 os._exit(0)
         os._exit(0)
     threading.Thread(target=ctl, daemon=True).start()
     try:
         srv.start()
+    except BaseException:  # noqa   (a server whose start() raises is still there to be observed)
+        pass
     finally:
         state["returned"] = True
     # stay around for stat / exit commands
